@@ -162,7 +162,7 @@ theorem leidenFit_spec {argsort : List Int → List Nat} (hs : ∀ key, IsArgsor
     leidenFit argsort kernel refine nAgg fuel N index sortClusters shuffle bipartite nRow = .ok none ∨
     ∃ f count, leidenFit argsort kernel refine nAgg fuel N index sortClusters shuffle bipartite nRow
         = .ok (some (f, count)) ∧
-      ValidClustering N (allLabels f) sortClusters := by
+      ValidClustering N (allLabels f) sortClusters ∧ f = splitVars bipartite nRow (allLabels f) := by
   unfold leidenFit
   have hc0 : Contiguous (List.range N) (List.range N).length := by
     rw [List.length_range]
@@ -173,7 +173,7 @@ theorem leidenFit_spec {argsort : List Int → List Nat} (hs : ∀ key, IsArgsor
   rcases this with h | ⟨a', k, c', h, hl, _, hc, _⟩
   · left; simp [h, bind, Except.bind, pure, Except.pure]
   · right
-    obtain ⟨f, hf, hv, _⟩ := postProcess_spec hs hl hc sortClusters shuffle bipartite nRow hidx
-    exact ⟨f, c', by simp [h, hf, bind, Except.bind, pure, Except.pure], hv⟩
+    obtain ⟨f, hf, hv, hsplit, _⟩ := postProcess_spec hs hl hc sortClusters shuffle bipartite nRow hidx
+    exact ⟨f, c', by simp [h, hf, bind, Except.bind, pure, Except.pure], hv, hsplit⟩
 
 end SkNet.Clustering
